@@ -62,6 +62,11 @@ for prop in ["C01", "C02", "C04", "C06", "C07", "C12", "C13", "C14", "C16"]:
         st = json.load(open(sp))
         if any(k.startswith("HARNESS-PANIC") for k in st.get("calls", {})):
             alarms.add("ALL:harness-panic")
+subprocess.run([HBIN, "miggrid", "--out", work], stdout=subprocess.DEVNULL, stderr=subprocess.DEVNULL)
+if os.path.exists(os.path.join(work, "trace_mig.txt")):
+    traces.append(os.path.join(work, "trace_mig.txt"))
+else:
+    alarms.add("ALL:harness-crash-miggrid")
 g = subprocess.run([HBIN, "bfs", "--scope", "all", "--max-states", "700", "--threads", "4", "--out", work],
                    stdout=subprocess.PIPE, stderr=subprocess.STDOUT, text=True)
 if g.returncode != 0:
